@@ -73,6 +73,7 @@ type execError struct{ msg string }
 type Exec struct {
 	e        *Engine
 	bankErrOnlyInsufficient bool // set by the BurnCoins model for the next bankOp
+	bankErrOnlyNonPositive  bool // set by the MintCoins model (C05 only) for the next bankOp
 	specs    *SpecDB
 	obls     []*Obligation
 	root     *FuncSpec
